@@ -17,7 +17,72 @@ def install():
         return
     from lark.parsers.grammar_analysis import LR0ItemSet
     LR0ItemSet.__hash__ = lambda self: hash((LALR_SALT[0], self.kernel))
+    _install_id_seam()
     _done = True
+
+
+# ------------------------------------------------------------------------------------------------ simulated addresses of input buffers
+# CPython hands the block of a freed object straight to the next allocation of the same size, so id(new_text) == id(old_text) is an
+# ordinary event for a program that builds one buffer per record - and a memo keyed by id() of an input then serves the answer for a
+# text that no longer exists.  Whether that happens is the allocator's decision, not the plan's: a violation that hinges on it is found
+# by luck and does not replay.  The seam: lark's modules see an `id` that, for the input buffers the harness creates (and only for
+# those), returns a *simulated* address taken from a LIFO free list per buffer length; a buffer's address is free again exactly when
+# the buffer is dead (weak reference).  Two live objects never share an address, simulated addresses never collide with real ones
+# (each is the real id of a dummy object that is kept alive for ever), and for every other object `id` is the builtin.
+import weakref as _weakref
+import builtins as _builtins
+
+
+class SimBuffer(str):
+    """an input text whose address, as lark sees it through id(), is decided by AddressSim"""
+
+
+class SimBytes(bytes):
+    pass
+
+
+class AddressSim:
+    def __init__(self):
+        self.slots = {}          # (type, len) -> [[dummy, weakref-to-current-owner or None], ...]
+        self.reused = 0
+
+    def new(self, value):
+        b = SimBytes(value) if isinstance(value, bytes) else SimBuffer(value)
+        free = self.slots.setdefault((type(b).__name__, len(b)), [])
+        for slot in reversed(free):            # most recently created slot first (the allocator is LIFO)
+            if slot[1] is None or slot[1]() is None:
+                slot[1] = _weakref.ref(b)
+                b._sim_addr = id(slot[0])
+                self.reused += 1
+                return b
+        dummy = object()
+        _KEEP.append(dummy)
+        free.append([dummy, _weakref.ref(b)])
+        b._sim_addr = id(dummy)
+        return b
+
+
+_KEEP = []
+ADDR = [None]                    # the AddressSim of the run in progress (None: inputs are plain str / bytes)
+
+
+def sim_id(obj):
+    if type(obj) is SimBuffer or type(obj) is SimBytes:
+        return obj._sim_addr
+    return _builtins.id(obj)
+
+
+def mkbuf(value):
+    """an input buffer for lark: a plain object, or one with a simulated address when the run asks for it"""
+    a = ADDR[0]
+    return a.new(value) if a is not None else value
+
+
+def _install_id_seam():
+    import sys
+    for name, mod in list(sys.modules.items()):
+        if (name == 'lark' or name.startswith('lark.')) and mod is not None and 'id' not in vars(mod):
+            mod.id = sim_id
 
 
 def set_lalr_salt(s):
